@@ -34,11 +34,14 @@ EvSel   == phase = "idle" /\ Event([e |-> "sel"])
 EvBit   == phase # "idle" /\ \E b \in {0, 1} : Event([e |-> "bit", b |-> b])
 EvMid   == phase # "idle" /\ \E b \in {0, 1} : Event([e |-> "mid", b |-> b])
 EvDesel == phase # "idle" /\ Event([e |-> "desel"])
+CutKinds == {[at |-> "fall", off |-> 0], [at |-> "fall", off |-> 1], [at |-> "rise", off |-> 0], [at |-> "fall", off |-> -1]}
+EvCut   == phase # "idle" /\ \E b \in {0, 1}, c \in CutKinds :
+               LET e == [e |-> "cut", b |-> b, at |-> c.at, off |-> c.off] IN EnvFail(e) = "ok" /\ Event(e)
 EvNoise == phase = "idle" /\ Event([e |-> "noise"])
 EvPoke  == phase = "idle" /\ \E a \in SignalRegs, v \in Values : Event([e |-> "poke", a |-> a, v |-> v])
 EvIdle  == Event([e |-> "idle"])
 
-Next == EvSel \/ EvBit \/ EvMid \/ EvDesel \/ EvNoise \/ EvPoke \/ EvIdle
+Next == EvSel \/ EvBit \/ EvMid \/ EvDesel \/ EvCut \/ EvNoise \/ EvPoke \/ EvIdle
 Spec == Init /\ [][Next]_vars
 
 RECURSIVE Sum(_)
